@@ -274,7 +274,7 @@ theorem kit_affineImage : Kit.affineImage := by
   obtain ⟨s, hsdef⟩ : ∃ s : Nat → Rat,
       s = fun j => if (A.getD j default).isPtOrCp then 1 else (den : Rat) := ⟨_, rfl⟩
   have hs : ∀ j < A.length, 0 < s j := by
-    intro j _; rw [hsdef]; show 0 < (if _ then _ else _)
+    intro j _; rw [hsdef]; show 0 < (if (A.getD j default).isPtOrCp then (1 : Rat) else (den : Rat))
     split
     · exact one_pos
     · exact hdq
@@ -347,5 +347,252 @@ theorem kit_affineImage : Kit.affineImage := by
         rw [hwv, hat lam lam' hrel, hval lam x h2 h4]
       exact mul_left_cancel₀ (ne_of_gt hdq) this
     · rw [hwj i hi hiv, h4 i hi]; exact hoff lam lam' hrel i hiv
+
+/-! ### `Kit.selectCoords` -/
+
+theorem toGen_withCf (nnc : Bool) (r : Row) (cf' : List Int) :
+    Row.toGen nnc { r with cf := cf' } = { r.toGen nnc with coords := cf' } := by
+  unfold Row.toGen
+  simp only
+  split
+  · rfl
+  · split
+    · rfl
+    · split <;> rfl
+
+theorem sel_getD (φ : Option Nat → Int) (hφ : φ none = 0) (src : List (Option Nat)) (k : Nat) :
+    (src.map φ).getD k 0 = φ (src.getD k none) := by
+  induction src generalizing k with
+  | nil => simp [hφ]
+  | cons a as ih =>
+    cases k with
+    | zero => simp
+    | succ k => simpa using ih k
+
+theorem coord_withCoords (g : Gen) (cf' : List Int) (k : Nat) :
+    Gen.coord { g with coords := cf' } k = ((cf'.getD k 0 : Int) : Rat) / (g.d : Rat) := rfl
+
+theorem selectCoords_aux (nnc : Bool) (n n' : Nat) (src : List (Option Nat)) (rows : List Row)
+    (F : Row → Row)
+    (hF : ∀ r, F r =
+      { r with cf := src.map fun o => match o with | some j => r.cf.getD j 0 | none => 0 })
+    (hsrc : ∀ k j, src.getD k none = some j → j < n) :
+    GenSem n' (gensOf nnc (rows.map F)) =
+      {w | ∃ x ∈ GenSem n (gensOf nnc rows), ∀ k < n',
+        w k = match src.getD k none with | some j => x j | none => 0} := by
+  obtain ⟨A, hA⟩ : ∃ A, A = gensOf nnc rows := ⟨_, rfl⟩
+  obtain ⟨A', hA'⟩ : ∃ A', A' = gensOf nnc (rows.map F) := ⟨_, rfl⟩
+  have hlenA : A.length = rows.length := by rw [hA]; exact gensOf_length nnc rows
+  have hlen' : A'.length = A.length := by rw [hlenA, hA', gensOf_length]; simp
+  have hfacts : ∀ j < A.length, (A'.getD j default).kind = (A.getD j default).kind ∧
+      ∀ k, (A'.getD j default).coord k =
+        match src.getD k none with
+        | some i => (A.getD j default).coord i
+        | none => 0 := by
+    intro j hj
+    have hj' : j < rows.length := hlenA ▸ hj
+    have e1 : A.getD j default = (rows.getD j default).toGen nnc := by
+      rw [hA]; exact gensOf_getD nnc rows j hj'
+    have e2 : A'.getD j default = (F (rows.getD j default)).toGen nnc := by
+      rw [hA', gensOf_getD nnc _ j (by simpa using hj'), getD_map_lt rows F j hj']
+    rw [e1, e2, hF, toGen_withCf]
+    refine ⟨rfl, fun k => ?_⟩
+    rw [coord_withCoords, sel_getD _ rfl]
+    cases src.getD k none with
+    | none => simp
+    | some i =>
+      show _ = Gen.coord _ i
+      unfold Gen.coord; rw [toGen_coords]
+  have hsum : ∀ (lam : Val) (k : Nat), wsum (fun g => g.coord k) A' lam =
+      match src.getD k none with
+      | some i => wsum (fun g => g.coord i) A lam
+      | none => 0 := by
+    intro lam k
+    cases h : src.getD k none with
+    | none =>
+      show _ = (0 : Rat)
+      rw [← wsum_fn_zero A lam]
+      apply wsum_congr2 _ _ _ _ hlen'
+      intro j hj
+      rw [((hfacts j (hlen' ▸ hj)).2 k), h]
+    | some i =>
+      show _ = wsum (fun g => g.coord i) A lam
+      apply wsum_congr2 _ _ _ _ hlen'
+      intro j hj
+      rw [((hfacts j (hlen' ▸ hj)).2 k), h]
+  have htr : ∀ lam : Val,
+      ((∀ j < A.length, (A.getD j default).isLine = false → 0 ≤ lam j) ∧
+        wsum pcf A lam = 1 ∧ (∃ j < A.length, (A.getD j default).isPt = true ∧ 0 < lam j)) ↔
+      ((∀ j < A'.length, (A'.getD j default).isLine = false → 0 ≤ lam j) ∧
+        wsum pcf A' lam = 1 ∧ (∃ j < A'.length, (A'.getD j default).isPt = true ∧ 0 < lam j)) :=
+    fun lam => genSem_transfer A A' hlen' (fun _ => 1) (fun _ _ => one_pos)
+      (fun j hj => (hfacts j hj).1) (fun _ _ _ => rfl) lam lam (fun _ _ => (one_mul _).symm)
+  rw [← hA, ← hA']
+  ext w
+  constructor
+  · rintro ⟨lam, h1, h2, h3, h4⟩
+    have ht := (htr lam).mpr ⟨h1, h2, h3⟩
+    refine ⟨fun i => wsum (fun g => g.coord i) A lam,
+      ⟨lam, ht.1, ht.2.1, ht.2.2, fun _ _ => rfl⟩, fun k hk => ?_⟩
+    rw [h4 k hk, hsum lam k]
+  · rintro ⟨x, ⟨lam, h1, h2, h3, h4⟩, hw⟩
+    have ht := (htr lam).mp ⟨h1, h2, h3⟩
+    refine ⟨lam, ht.1, ht.2.1, ht.2.2, fun k hk => ?_⟩
+    rw [hw k hk, hsum lam k]
+    cases h : src.getD k none with
+    | none => rfl
+    | some i => exact h4 i (hsrc k i h)
+
+theorem kit_selectCoords : Kit.selectCoords := by
+  intro nnc n n' src rows _ _ hsrc
+  exact selectCoords_aux nnc n n' src rows _ (fun _ => rfl) hsrc
+
+/-! ### `Kit.addLines` -/
+
+theorem getD_unit (v m i : Nat) :
+    (List.replicate v (0 : Int) ++ [1] ++ List.replicate m 0).getD i 0 = if i = v then 1 else 0 := by
+  induction v generalizing i with
+  | zero =>
+    cases i with
+    | zero => simp
+    | succ i =>
+      simp [List.getD_eq_getElem?_getD, List.getElem?_replicate]
+      split <;> rfl
+  | succ v ih =>
+    cases i with
+    | zero => simp [List.replicate_succ]
+    | succ i =>
+      have := ih i
+      simp only [List.replicate_succ, List.cons_append, List.getD_cons_succ]
+      rw [this]; simp
+
+theorem unitEqRow_toGen (nnc : Bool) (n v : Nat) :
+    (unitEqRow n v).toGen nnc =
+      ⟨.line, List.replicate v 0 ++ [1] ++ List.replicate (n - v - 1) 0, 1⟩ := rfl
+
+theorem unitEqRow_coord (nnc : Bool) (n v i : Nat) :
+    ((unitEqRow n v).toGen nnc).coord i = if i = v then 1 else 0 := by
+  rw [unitEqRow_toGen, coord_line, getD_unit]
+  split <;> simp
+
+theorem getD_append_lt (A B : List Gen) (j : Nat) (hj : j < A.length) :
+    (A ++ B).getD j default = A.getD j default := by
+  simp [List.getD_eq_getElem?_getD, List.getElem?_append_left hj]
+
+theorem getD_append_len (A : List Gen) (l : Gen) :
+    (A ++ [l]).getD A.length default = l := by
+  simp [List.getD_eq_getElem?_getD]
+
+/-- one more line along coordinate `v`: coordinate `v` becomes arbitrary -/
+theorem genSem_add_line (n : Nat) (A : List Gen) (l : Gen) (v : Nat) (hl : l.kind = .line)
+    (hc : ∀ i, l.coord i = if i = v then 1 else 0) (_hv : v < n) :
+    GenSem n (A ++ [l]) = {w | ∃ x ∈ GenSem n A, ∀ j < n, j ≠ v → w j = x j} := by
+  have hline : l.isLine = true := by unfold Gen.isLine; rw [hl]; rfl
+  have hnpt : l.isPt = false := by unfold Gen.isPt; rw [hl]; rfl
+  have hpc : pcf l = 0 := by
+    show (if l.isPtOrCp then (1 : Rat) else 0) = 0
+    unfold Gen.isPtOrCp; rw [hl]; rfl
+  have hsplit : ∀ (f : Gen → Rat) (lam : Val),
+      wsum f (A ++ [l]) lam = wsum f A lam + lam A.length * f l := by
+    intro f lam
+    rw [wsum_append]; simp [wsum]
+  have hlen : (A ++ [l]).length = A.length + 1 := by simp
+  ext w
+  constructor
+  · rintro ⟨lam, h1, h2, ⟨j0, hj0, hp0, hl0⟩, h4⟩
+    refine ⟨fun i => wsum (fun g => g.coord i) A lam, ⟨lam, ?_, ?_, ?_, fun _ _ => rfl⟩, ?_⟩
+    · intro j hj hnl
+      have := h1 j (by rw [hlen]; omega)
+      rw [getD_append_lt A _ j hj] at this
+      exact this hnl
+    · have := h2
+      rw [hsplit] at this
+      change wsum pcf A lam + lam A.length * pcf l = 1 at this
+      rw [hpc] at this
+      linarith
+    · by_cases hj : j0 < A.length
+      · rw [getD_append_lt A _ j0 hj] at hp0
+        exact ⟨j0, hj, hp0, hl0⟩
+      · have : j0 = A.length := by rw [hlen] at hj0; omega
+        rw [this, getD_append_len, hnpt] at hp0
+        cases hp0
+    · intro j hj hjv
+      rw [h4 j hj, hsplit, hc j, if_neg hjv]; ring
+  · rintro ⟨x, ⟨lam, h1, h2, ⟨j0, hj0, hp0, hl0⟩, h4⟩, hw⟩
+    obtain ⟨lam', hlam'⟩ : ∃ lam' : Val,
+      lam' = fun j => if j < A.length then lam j else w v - x v := ⟨_, rfl⟩
+    have hin : ∀ j < A.length, lam' j = lam j := by
+      intro j hj; rw [hlam']; exact if_pos hj
+    have hout : lam' A.length = w v - x v := by
+      rw [hlam']; exact if_neg (lt_irrefl _)
+    have hws : ∀ f : Gen → Rat, wsum f A lam' = wsum f A lam := by
+      intro f
+      apply wsum_congr
+      intro j hj
+      rw [hin j hj]
+    refine ⟨lam', ?_, ?_, ?_, ?_⟩
+    · intro j hj hnl
+      by_cases hjA : j < A.length
+      · rw [getD_append_lt A _ j hjA] at hnl
+        rw [hin j hjA]; exact h1 j hjA hnl
+      · have : j = A.length := by rw [hlen] at hj; omega
+        rw [this, getD_append_len, hline] at hnl
+        cases hnl
+    · rw [hsplit, hws]
+      change wsum pcf A lam + lam' A.length * pcf l = 1
+      rw [hpc, h2]; ring
+    · refine ⟨j0, by rw [hlen]; omega, ?_, ?_⟩
+      · rw [getD_append_lt A _ j0 hj0]; exact hp0
+      · rw [hin j0 hj0]; exact hl0
+    · intro i hi
+      rw [hsplit, hws, hout, hc i, ← h4 i hi]
+      by_cases hiv : i = v
+      · rw [if_pos hiv, hiv]; ring
+      · rw [if_neg hiv, hw i hi hiv]; ring
+
+theorem addLines_aux (nnc : Bool) (n : Nat) (vars : List Nat) (hvars : ∀ v ∈ vars, v < n) :
+    ∀ rows : List Row, genSem nnc n (rows ++ vars.map (unitEqRow n)) =
+      {w | ∃ x ∈ genSem nnc n rows, ∀ j < n, j ∉ vars → w j = x j} := by
+  induction vars with
+  | nil =>
+    intro rows
+    simp only [List.map_nil, List.append_nil, List.not_mem_nil, not_false_eq_true, forall_const]
+    ext w
+    constructor
+    · intro hw; exact ⟨w, hw, fun _ _ => rfl⟩
+    · rintro ⟨x, hx, h⟩
+      exact GenSem_cylinder n _ w x hx (fun i hi => (h i hi).symm)
+  | cons v vs ih =>
+    intro rows
+    have hv : v < n := hvars v (by simp)
+    have ih' := ih (fun u hu => hvars u (by simp [hu])) (rows ++ [unitEqRow n v])
+    have e1 : rows ++ (v :: vs).map (unitEqRow n) = (rows ++ [unitEqRow n v]) ++ vs.map (unitEqRow n) := by
+      simp
+    have e2 : genSem nnc n (rows ++ [unitEqRow n v]) =
+        {w | ∃ x ∈ genSem nnc n rows, ∀ j < n, j ≠ v → w j = x j} := by
+      unfold genSem gensOf
+      rw [List.map_append]
+      exact genSem_add_line n _ _ v rfl (unitEqRow_coord nnc n v) hv
+    rw [e1, ih', e2]
+    ext w
+    constructor
+    · rintro ⟨x', ⟨x, hx, hxx'⟩, hwx'⟩
+      refine ⟨x, hx, fun j hj hjn => ?_⟩
+      have h1 : j ≠ v := fun h => hjn (by simp [h])
+      have h2 : j ∉ vs := fun h => hjn (by simp [h])
+      rw [hwx' j hj h2, hxx' j hj h1]
+    · rintro ⟨x, hx, hwx⟩
+      refine ⟨fun j => if j = v then w v else x j, ⟨x, hx, fun j _ hjv => if_neg hjv⟩,
+        fun j hj hjn => ?_⟩
+      by_cases hjv : j = v
+      · show w j = if j = v then w v else x j
+        rw [if_pos hjv, hjv]
+      · show w j = if j = v then w v else x j
+        rw [if_neg hjv]
+        exact hwx j hj (by simp [hjv, hjn])
+
+theorem kit_addLines : Kit.addLines := by
+  intro nnc n rows vars _ hvars
+  exact addLines_aux nnc n vars hvars rows
 
 end PPLV.PolyOps
